@@ -1,6 +1,8 @@
 package engine
 
 import (
+	"strings"
+	"unicode"
 	"go/types"
 	"strconv"
 
@@ -239,4 +241,109 @@ func init() {
 		}
 		return c.V
 	}
+}
+
+// strings.ToLower / ToUpper: exact on ASCII strings. A symbolic argument is
+// assumed ASCII (a stated restriction of the explored inputs, listed in the
+// result's notes); the result is an uninterpreted function application whose
+// contract is instantiated per query, character by character.
+func init() {
+	mk := func(name string, lo, hi, delta int64) {
+		intrinsics["strings."+name] = func(m *Machine, fn *ssa.Function, a []Value) Value {
+			v := forceLazy(a[0])
+			if cs, ok := v.(string); ok {
+				if name == "ToLower" {
+					return strings.ToLower(cs)
+				}
+				return strings.ToUpper(cs)
+			}
+			t := toTerm(v)
+			if !knownASCII(t) {
+				m.assume(&Term{Op: "in_re", Args: []*Term{t}, Sort: SBool, Re: asciiRe})
+				m.note("strings." + name + ": explored on ASCII arguments only")
+			}
+			return App("FS"+name, SString, t)
+		}
+		RegisterAppAxioms("FS"+name, func(app *Term) []*Term {
+			arg := app.Args[0]
+			out := []*Term{Eq(Len(app), Len(arg))}
+			for i := int64(0); i < 12; i++ {
+				c := ToCode(At(arg, IntT(i)))
+				r := ToCode(At(app, IntT(i)))
+				mapped := Ite(And(Ge(c, IntT(lo)), Le(c, IntT(hi))), Add(c, IntT(delta)), c)
+				out = append(out, Implies(Lt(IntT(i), Len(arg)), Eq(r, mapped)))
+			}
+			out = append(out, Le(Len(arg), IntT(12)))
+			return out
+		})
+	}
+	mk("ToLower", 65, 90, 32)
+	mk("ToUpper", 97, 122, -32)
+}
+
+// strings.TrimSpace: white space (unicode.IsSpace) is peeled off one code
+// point at a time, forking on each end (bounded by the string bound).
+var (
+	wsClass   = `[\t\n\v\f\r \x{85}\x{A0}\x{1680}\x{2000}-\x{200A}\x{2028}\x{2029}\x{202F}\x{205F}\x{3000}]`
+	wsHeadRe  = mustRegex(`\A` + wsClass + `(?s:.*)\z`)
+	wsTailRe  = mustRegex(`\A(?s:.*)` + wsClass + `\z`)
+)
+
+func mustRegex(p string) *Regex {
+	re, err := CompileRegex(p)
+	if err != nil {
+		panic(err)
+	}
+	return re
+}
+
+func init() {
+	intrinsics["strings.TrimSpace"] = func(m *Machine, fn *ssa.Function, a []Value) Value {
+		v := forceLazy(a[0])
+		if cs, ok := v.(string); ok {
+			return strings.TrimSpace(cs)
+		}
+		cur := toTerm(v)
+		for n := 0; ; n++ {
+			if n > m.Cfg.MaxStrLen+1 {
+				unsupported("UNWIND-INSUFFICIENT: strings.TrimSpace")
+			}
+			if !m.branch(fromTerm(InRe(cur, wsHeadRe))) {
+				break
+			}
+			cur = Substr(cur, IntT(1), Sub(Len(cur), IntT(1)))
+		}
+		for n := 0; ; n++ {
+			if n > m.Cfg.MaxStrLen+1 {
+				unsupported("UNWIND-INSUFFICIENT: strings.TrimSpace")
+			}
+			if !m.branch(fromTerm(InRe(cur, wsTailRe))) {
+				break
+			}
+			cur = Substr(cur, IntT(0), Sub(Len(cur), IntT(1)))
+		}
+		return fromTerm(cur)
+	}
+	// unicode predicates on a code point: exact for ASCII; a symbolic code
+	// point is assumed ASCII (noted as an input restriction)
+	uni := func(name string, conc func(rune) bool, ranges [][2]int64) {
+		intrinsics["unicode."+name] = func(m *Machine, fn *ssa.Function, a []Value) Value {
+			if c, ok := a[0].(int64); ok {
+				return conc(rune(c))
+			}
+			c := toTerm(a[0])
+			m.assume(And(Ge(c, IntT(0)), Lt(c, IntT(128))))
+			m.note("unicode." + name + ": explored on ASCII code points only")
+			var alts []*Term
+			for _, r := range ranges {
+				alts = append(alts, And(Ge(c, IntT(r[0])), Le(c, IntT(r[1]))))
+			}
+			return fromTerm(Or(alts...))
+		}
+	}
+	uni("IsLower", unicode.IsLower, [][2]int64{{97, 122}})
+	uni("IsUpper", unicode.IsUpper, [][2]int64{{65, 90}})
+	uni("IsDigit", unicode.IsDigit, [][2]int64{{48, 57}})
+	uni("IsLetter", unicode.IsLetter, [][2]int64{{65, 90}, {97, 122}})
+	uni("IsSpace", unicode.IsSpace, [][2]int64{{9, 13}, {32, 32}})
 }
